@@ -309,14 +309,16 @@ structure TdmCall (ε : Type) where
   sel : Option (Method ε)
   argsort : Option (List ε → List Nat)
 
-/-- run a history of calls on one manager; a raising call leaves the object as it was before the
-call (simplification: C05 only looks at states after successful calls) -/
-def runCalls {ε : Type} (reset : Bool) (self : TdmObj ε) : List (TdmCall ε) → TdmObj ε
+/-- run a history of calls on one manager.  What a raising call leaves behind (the code has already
+overwritten `_events`, possibly `_src_evt_idxs`) is not fixed here: `onRaise` is an arbitrary
+function of the old object and the call, and the theorems hold for every such function. -/
+def runCalls {ε : Type} (reset : Bool) (onRaise : TdmObj ε → TdmCall ε → TdmObj ε) (self : TdmObj ε) :
+    List (TdmCall ε) → TdmObj ε
   | [] => self
   | c :: cs =>
     match initTrialObj reset self c.K c.evs c.sel c.argsort with
-    | none => runCalls reset self cs
-    | some s => runCalls reset s cs
+    | none => runCalls reset onRaise (onRaise self c) cs
+    | some s => runCalls reset onRaise s cs
 
 /-! ### the selection-method object and its cached source array -/
 
